@@ -229,8 +229,10 @@ func VerifC15_Ante() {
 		sg, err := signer.Sign(sb)
 		verifAssume(err == nil)
 		s := std.Signature{Signature: sg}
-		if verifChoose("sig carries key", 2) == 1 || !hadKey[i] {
-			s.PubKey = signer.PubKey() // a first transaction must carry the key
+		if verifChoose("sig carries key", 2) == 1 {
+			s.PubKey = signer.PubKey()
+		} else if !hadKey[i] {
+			allRight = false // a first transaction must carry the key: there is none to verify against
 		}
 		sigs = append(sigs, s)
 	}
